@@ -38,17 +38,18 @@ class BatchSched:
                 self.voting = False
 
 
-def mk_driver(nvote, prev_monitor):
+def mk_driver(nvote, prev_monitor, visual=False):
     def driver(vm, P, c):
-        main, opts, method = c['main'], c['opts'], c['method']
+        main, opts = c['main'], c['opts']
+        third = Ref(c['metric_opts']) if visual else c['method']     # voting_thread's third argument: metric options / positional method
         vqs = [Cell(VecV((), 'queue'), 'voteq%d' % i) for i in range(nvote)]
         counter_cell = c['counter_cell']
         store_arc = Ref(Cell(main.value, 'store_lock'))
-        vt = P.fns['sort::batch_api::voting_thread']
+        vt = P.fns['visual_sort::batch_api::voting_thread' if visual else 'sort::batch_api::voting_thread']
         vt = vt[0] if isinstance(vt, list) else vt
 
         def run_voting(i):
-            vm.exec_fn(vt, [store_arc, receiver(vqs[i]), method, Ref(counter_cell)], {})
+            vm.exec_fn(vt, [store_arc, receiver(vqs[i]), third, Ref(counter_cell)], {})
         order = list(range(nvote))
         if nvote > 1 and vm.choose_n(2, "voting thread service order") == 1:
             order.reverse()
@@ -61,10 +62,15 @@ def mk_driver(nvote, prev_monitor):
             mcell = Cell((usize(0), Opaque('Condvar', 'prev')), 'prev_monitor')
             mon = SOME(Ref(mcell))
             sched.caller_cells.append(mcell)
-        bs = Cell(mk(P, 'BatchSort', monitor=mon, store=store_arc, wasted_store=c['wasted'].value, opts=Ref(opts),
-                     voting_threads=VecV(tuple((sender(q), Opaque('JoinHandle', 'vt%d' % i)) for i, q in enumerate(vqs))),
-                     auto_waste=mk(P, 'AutoWaste', periodicity=c['awp'], counter=c['awc'])), 'batch_sort')
-        env = {'T': '(Universal2DBox, Option<i64>)'}
+        T = 'BatchVisualSort' if visual else 'BatchSort'
+        threads = VecV(tuple((sender(q), Opaque('JoinHandle', 'vt%d' % i)) for i, q in enumerate(vqs)))
+        aw = mk(P, 'AutoWaste', periodicity=c['awp'], counter=c['awc'])
+        if visual:
+            bs = Cell(mk(P, T, monitor=mon, store=store_arc, wasted_store=c['wasted'].value, metric_opts=Ref(c['metric_opts']), track_opts=Ref(opts),
+                         voting_threads=threads, auto_waste=aw), 'batch_visual_sort')
+        else:
+            bs = Cell(mk(P, T, monitor=mon, store=store_arc, wasted_store=c['wasted'].value, opts=Ref(opts), voting_threads=threads, auto_waste=aw), 'batch_sort')
+        env = {'T': 'VisualSortObservation' if visual else '(Universal2DBox, Option<i64>)'}
         new = P.impl_methods[('PredictionBatchRequest', None, 'new')][0][0]
         add = P.impl_methods[('PredictionBatchRequest', None, 'add')][0][0]
         pair = vm.exec_fn(new, [], env)
@@ -79,7 +85,7 @@ def mk_driver(nvote, prev_monitor):
         if not c['dets']:
             return VecV(())
         try:
-            vm.exec_fn(P.impl_methods[('BatchSort', None, 'predict')][0][0], [Ref(bs), req.v], {})
+            vm.exec_fn(P.impl_methods[(T, None, 'predict')][0][0], [Ref(bs), req.v], {})
         except Panic as e:
             vm.check(BOOL('deadlock' not in e.msg), "submission does not deadlock: " + e.msg[:100])
             raise
@@ -93,7 +99,7 @@ def mk_driver(nvote, prev_monitor):
         vm.check(sc.e == c['scene'].e, "the result carries the scene it belongs to")
         vm.check(BOOL(len(rq.v.items) == 0), "exactly one result per scene of the batch")
         vm.check(BOOL(all(len(q.v.items) == 0 for q in vqs)), "every voting command was consumed")
-        m = fld(P, bs.v, 'BatchSort', 'monitor')
+        m = fld(P, bs.v, T, 'monitor')
         vm.check(BOOL(m.variant == 1), "the batch has a busy monitor")
         if m.variant == 1:
             left = vm.deref(m.fields[0])[0]
@@ -202,3 +208,109 @@ for (nd, ns, nv, mon, tier, lite, maha) in [(1, 0, 1, 'none', 'quick', False, Fa
                   "%d detections, %d stored tracks, %d voting thread(s) (both service orders), previous batch: %s; 1 shard; %s mode; voting threads run when the caller blocks; channels unbounded" % (
                       nd, ns, nv, {'none': 'none', 'done': 'finished'}[mon], "Mahalanobis" if maha else "IoU"),
                   FUNCS, spec_calls=_s._calls, replay=replay_batch, max_paths=200000, timeout=3000))
+
+
+# ---- the visual batch tracker: same protocol, the VisualSORT predict step's oracle (props/stepvisual.py)
+import stepvisual as _v
+VFUNCS = ["similari::trackers::visual_sort::batch_api::BatchVisualSort::predict", "similari::trackers::visual_sort::batch_api::voting_thread"] + FUNCS[2:3] + _v.FUNCS[1:]
+for (nd, ns, nv, mon, tier, lite) in [(1, 0, 1, 'none', 'quick', False), (1, 1, 1, 'done', 'quick', True), (0, 1, 1, 'none', 'quick', False), (1, 1, 2, 'none', 'thorough', False)]:
+    MIR.append(MQ("step_batch_visual_d%d_t%d_v%d_%s" % (nd, ns, nv, mon), tier, _v.mk_step(nd, ns, lite=lite, driver=mk_driver(nv, mon, visual=True)),
+                  "one BatchVisualSort::predict call (one scene) from an arbitrary valid tracker state satisfies the oracle of the simple VisualSORT predict step (records, gates, "
+                  "appearance / positional voting, gallery, ids, epochs) - plus: one result per scene, tagged with its scene; the busy monitor returns to zero; no wait forever",
+                  "%d detections, %d stored tracks, %d voting thread(s), previous batch: %s; 1 shard; IoU + Euclidean mode; option grids as in the simple VisualSORT step" % (nd, ns, nv, mon),
+                  VFUNCS, spec_calls=_v._calls, replay=None, max_paths=200000, timeout=3000))
+
+
+# ---- from BatchSort::new: a fresh tracker built by the real constructor (real TrackStore::new, real thread bodies recorded by
+# the thread::spawn model), first batch with two scenes on two voting threads
+class ThreadSched:
+    """every spawned thread body (store workers, voting threads) is a closure; when somebody blocks, every thread that is not
+    already on the stack runs until it blocks on an empty queue itself (command-granularity schedule; `order` = service order)"""
+
+    def __init__(self, vm, order_choice=False):
+        self.vm = vm
+        self.active = set()
+        self.order_choice = order_choice
+
+    def on_send(self, vm, q):
+        pass
+
+    def on_block(self, vm, q):
+        ths = list(enumerate(vm.notes['threads']))
+        if self.order_choice and len(ths) > 1 and not self.active:
+            if vm.choose_n(2, "thread service order") == 1:
+                ths.reverse()
+        for i, th in ths:
+            if i in self.active:
+                continue
+            self.active.add(i)
+            try:
+                vm.call_value(th, [])
+            finally:
+                self.active.discard(i)
+
+
+def q_fresh(nscenes, ndet, vshards, dshards):
+    def q(vm, P):
+        vm.notes['threads'] = []
+        vm.notes['ids'] = []
+        sched = ThreadSched(vm, order_choice=True)
+        vm.notes['sched'] = sched
+        thr = grid_f32(vm, 'iou_threshold', [0.25, 0.5])
+        method = variant(P, 'PositionalMetricType', 'IoU', thr)
+        max_idle = vm.fresh(64, 'max_idle')
+        vm.assume(z3.ULT(max_idle.e, 2 ** 40))
+        new = P.impl_methods[('BatchSort', None, 'new')][0][0]
+        bs = Cell(vm.exec_fn(new, [usize(dshards), usize(vshards), usize(2), max_idle, method, f32(0.5), SOME(mk(P, 'SpatioTemporalConstraints', constraints=VecV(()))), f32(0.05), f32(0.00625)], {}), 'batch_sort')
+        vm.check(BOOL(len(vm.notes['threads']) == 2 * dshards + vshards), "the constructor starts one worker per store shard (two stores) and one voting thread per voting shard")
+        env = {'T': '(Universal2DBox, Option<i64>)'}
+        pair = vm.exec_fn(P.impl_methods[('PredictionBatchRequest', None, 'new')][0][0], [], env)
+        req, res = Cell(pair[0], 'request'), Cell(pair[1], 'result')
+        scenes = [vm.fresh(64, 'scene%d' % k) for k in range(nscenes)]
+        for a in range(nscenes):
+            for b in range(a):
+                vm.assume(scenes[a].e != scenes[b].e)
+        far, iou = {}, {}
+        vm.notes.update(far=far, iou=iou, maha={}, ndet=nscenes * ndet, nstored=0)
+        dets = []
+        for k in range(nscenes):
+            for i in range(ndet):
+                cid = vm.fresh(64, 'custom_%d_%d' % (k, i), signed=True)
+                d = (_s._detbox(k * ndet + i, f32(1.0)), SOME(cid))
+                dets.append((k, i, cid))
+                vm.exec_fn(P.impl_methods[('PredictionBatchRequest', None, 'add')][0][0], [Ref(req), scenes[k], d], env)
+        try:
+            vm.exec_fn(P.impl_methods[('BatchSort', None, 'predict')][0][0], [Ref(bs), req.v], {})
+            got = {}
+            for k in range(nscenes):
+                sc, recs = vm.exec_fn(P.impl_methods[('PredictionBatchResult', None, 'get')][0][0], [Ref(res)], {})
+                hit = [j for j in range(nscenes) if vm.branch(sc.e == scenes[j].e)]
+                vm.check(BOOL(len(hit) == 1 and hit[0] not in got), "every result belongs to a scene of the batch, one result per scene")
+                if hit:
+                    got[hit[0]] = recs
+        except Panic as e:
+            vm.check(BOOL(False), "a first batch on a fresh tracker is processed without a panic / a lost result: " + e.msg[:120])
+            return
+        vm.check(BOOL(len(got) == nscenes), "one result per scene")
+        ids = []
+        for k in range(nscenes):
+            recs = got[k].items
+            vm.check(BOOL(len(recs) == ndet), "one record per detection")
+            for i, r in enumerate(recs[:ndet]):
+                g = lambda n: fld(P, r, 'SortTrack', n)
+                vm.check(BOOL(_s._marker(g('observed_bbox')) == 100 + k * ndet + i), "records in submission order")
+                vm.check(z3.And(g('scene_id').e == scenes[k].e, g('epoch').e == 1, g('length').e == 1), "a fresh tracker's first records: scene, epoch 1, length 1")
+                vm.check(z3.And([g('id').e != o for o in ids] + [g('id').e != 0]), "track ids issued by one tracker are pairwise distinct (the voting threads share one counter)")
+                ids.append(g('id').e)
+        m = fld(P, bs.v, 'BatchSort', 'monitor')
+        left = vm.deref(m.fields[0])[0] if m.variant == 1 else None
+        vm.check(BOOL(left is not None) if left is None else left.e == 0, "the busy monitor is back to zero")
+    return q
+
+
+for (nsc, nd, vs_, ds_, tier) in [(2, 1, 2, 1, 'quick'), (1, 2, 1, 1, 'quick'), (2, 2, 2, 1, 'thorough'), (2, 1, 1, 2, 'thorough')]:
+    MIR.append(MQ("batch_sort_fresh_s%d_d%d_v%d_sh%d" % (nsc, nd, vs_, ds_), tier, q_fresh(nsc, nd, vs_, ds_),
+                  "BatchSort::new (real constructor, real TrackStore::new; thread bodies as recorded closures) followed by a first batch: one result per scene, one record per detection in order, "
+                  "scene / epoch 1 / length 1, ids pairwise distinct across scenes and voting threads, no panic, busy monitor back to zero",
+                  "%d scene(s) x %d detection(s), %d voting thread(s), %d store shard(s); threads run at command granularity when somebody blocks, both service orders" % (nsc, nd, vs_, ds_),
+                  FUNCS + ["similari::trackers::sort::batch_api::BatchSort::new", "similari::track::store::TrackStore::new"], spec_calls=_s._calls, replay=replay_batch, max_paths=200000, timeout=3000))
